@@ -1,8 +1,8 @@
 (* C20 -- Segment/polygon predicates agree with exact arithmetic.
    Property statements about the exact-rational model (theories/Model_Geom2D.v), which the correspondence
    check runs against hypnotoad's float implementation on every run. *)
-From Coq Require Import QArith Qabs List.
-From HT Require Import Model_Geom2D Proof_Geom2D.
+From Coq Require Import QArith Qabs List Lqa.
+From HT Require Import Model_Geom2D Proof_Geom2D Proof_Geom2D_Complete.
 Import ListNotations.
 Local Open Scope Q_scope.
 
@@ -18,15 +18,63 @@ Theorem C20_single_edge_sound :
   forall s e p q P, hit 0 s e p q = Some P -> on_seg P p q /\ on_seg P s e.
 Proof. exact hit_sound. Qed.
 
-(* completeness -- PARTIAL: proved for the representative branch (segment and edge both |dR| > |dZ|);
-   the other three branches are covered by the correspondence / lattice enumeration, not by a theorem *)
-Theorem C20_complete_partial :
-  forall s e p q p1 q1 P,
-    cR s < cR e -> is_a p q = true -> sortR p q = (p1, q1) ->
-    par_eps <= Qabs ((cZ q1 - cZ p1) / (cR q1 - cR p1) - (cZ e - cZ s) / (cR e - cR s)) ->
-    collinear P p1 q1 -> collinear P s e -> cR p1 <= cR P <= cR q1 -> cR s <= cR P <= cR e ->
-    exists P', hit_H 0 s e p q = Some P' /\ cR P' == cR P /\ cZ P' == cZ P.
-Proof. exact hit_H_a_complete. Qed.
+(* completeness, ALL four slope-class branches (segment more horizontal / more vertical  x  edge more horizontal / more
+   vertical), segment and edge given in either orientation: if the segment meets a wall edge it is `separated` from
+   (both of non-zero length; when in the same slope class, slopes differing by at least the code's own parallel filter
+   1e-15 -- segments of different classes are never parallel) then the meeting point is reported *)
+Theorem C20_complete :
+  forall s e p q P, separated s e p q -> on_seg P p q -> on_seg P s e ->
+    exists P', hit 0 s e p q = Some P' /\ pt_eq P' P.
+Proof. exact hit_complete. Qed.
+
+(* "reports a crossing point exactly when the segment meets the closed wall polyline": for any polyline all of whose
+   edges are separated from the segment, the reported points are exactly the points lying on the segment and on an edge *)
+Theorem C20_reports_exactly_the_crossings :
+  forall wall s e, (forall p q, In (p, q) (edges wall) -> separated s e p q) ->
+    forall P, (exists P', In P' (find_intersections 0 wall s e) /\ pt_eq P' P) <->
+              (exists p q, In (p, q) (edges wall) /\ on_seg P p q /\ on_seg P s e).
+Proof. exact find_intersections_exact. Qed.
+
+(* reversed segments and reversed wall edges behave identically (hits and misses) *)
+Theorem C20_reversed_segment :
+  forall s e p q, separated s e p q ->
+    (forall P, hit 0 s e p q = Some P -> exists P', hit 0 e s p q = Some P' /\ pt_eq P' P) /\
+    (hit 0 s e p q = None -> hit 0 e s p q = None).
+Proof. intros s e p q H. split; [intros P; apply hit_reversed_segment; exact H | apply miss_reversed_segment; exact H]. Qed.
+
+Theorem C20_reversed_edge :
+  forall s e p q P, separated s e p q -> hit 0 s e p q = Some P -> exists P', hit 0 s e q p = Some P' /\ pt_eq P' P.
+Proof. exact hit_reversed_edge. Qed.
+
+(* a crossing through a vertex shared by two wall edges: both edges report (the same) point, and wallIntersection
+   merges two coincident reports into ONE point for any positive tolerance *)
+Theorem C20_shared_vertex :
+  (forall wall s e p V q, In (p, V) (edges wall) -> In (V, q) (edges wall) -> separated s e p V -> separated s e V q ->
+     on_seg V s e ->
+     exists a b, In a (find_intersections 0 wall s e) /\ In b (find_intersections 0 wall s e) /\ pt_eq a V /\ pt_eq b V) /\
+  (forall tol wall s e a b V, 0 < tol -> find_intersections tol wall s e = [a; b] -> pt_eq a V -> pt_eq b V ->
+     wallIntersection tol wall s e = WPoint a).
+Proof. split; [exact shared_vertex_both_reported | exact shared_vertex_one_point]. Qed.
+
+(* the tolerance (1e-14 in the code) only widens the acceptance windows: every exact hit is a hit at any tol >= 0 *)
+Theorem C20_tolerance_monotone :
+  forall tol s e p q P, 0 <= tol -> hit 0 s e p q = Some P -> hit tol s e p q = Some P.
+Proof. exact hit_mono. Qed.
+
+(* closest_approach: the returned (squared) distance is attained on the segment and no point of the segment is closer *)
+Theorem C20_closest_approach_is_minimum :
+  forall p a b, ~ dot (sub b a) (sub b a) == 0 ->
+    (forall t, 0 <= t <= 1 -> closest2 p a b <= dist2 p (along a b t)) /\
+    (exists t, 0 <= t <= 1 /\ closest2 p a b == dist2 p (along a b t)).
+Proof. intros p a b H. split; [intros t Ht; apply closest2_minimal; assumption | apply closest2_attained; exact H]. Qed.
+
+(* non-vacuity of `separated`: a slanted segment and a vertical edge; a horizontal and a slanted one of the same class *)
+Example C20_separated_example :
+  separated (mkpt 1 1) (mkpt 3 (3#2)) (mkpt 2 0) (mkpt 2 2) /\ separated (mkpt 0 0) (mkpt 4 0) (mkpt 1 (-1)) (mkpt 3 (1#2)).
+Proof.
+  split; (split; [intros [A B]; simpl in *; lra|]; split; [intros [A B]; simpl in *; lra|]; split; intros H1 H2;
+          try (vm_compute in H1; discriminate); try (vm_compute in H2; discriminate); vm_compute; intro; discriminate).
+Qed.
 
 (* non-vacuity: a slanted segment crossing a square wall is reported once, at the exact point *)
 Example C20_example :
@@ -36,4 +84,10 @@ Proof. eexists. split; [vm_compute; reflexivity | split; reflexivity]. Qed.
 
 Print Assumptions C20_reported_points_lie_on_both.
 Print Assumptions C20_single_edge_sound.
-Print Assumptions C20_complete_partial.
+Print Assumptions C20_complete.
+Print Assumptions C20_reports_exactly_the_crossings.
+Print Assumptions C20_reversed_segment.
+Print Assumptions C20_reversed_edge.
+Print Assumptions C20_shared_vertex.
+Print Assumptions C20_tolerance_monotone.
+Print Assumptions C20_closest_approach_is_minimum.
